@@ -91,6 +91,7 @@ void obj_reset_all();
 typedef void (*handler_t)(const Args &);
 void reg(const char *op, handler_t h);
 void fatal(const char *fmt, ...);
+void reg_store(const Args &a, const bytes_t &v);   // save=NAME / save=NAME+ registers
 
 // tape for the wrapped TRNG entry points (wrap_trng.cpp)
 void tape_set_mask(const std::string &mode, const bytes_t &data);
